@@ -12,6 +12,7 @@ EXPLANATION = (
     "the including file's canonical path; recursion happens only through the guarded function; a missing target exits with Err. "
     "Not decided: the exact spliced text and fence-length corner cases (string values)."
     ' (R7) is_code_fence_close rejects exactly the lines with another marker or a SHORTER run than the opening fence, decided over the finite (marker, length) table.'
+    ' (R4, tightened) the active-set key derives from canonicalize(path) (two spellings of one file must be one key).'
 )
 
 HS = r"std::collections::hash::set::HashSet::<T, S, A>::"
